@@ -1914,6 +1914,10 @@ impl JsObject {
                 let idx = idx as usize;
                 // Extend array with undefined if needed (dense array)
                 if idx >= elements.len() {
+                    if !array_length_is_allocatable(elements, idx + 1) {
+                        // Callers that can report an error check this before writing
+                        return;
+                    }
                     elements.resize(idx + 1, JsValue::Undefined);
                 }
                 // Safe: we just resized to ensure idx is in bounds
@@ -1926,15 +1930,11 @@ impl JsObject {
             if let PropertyKey::String(ref s) = key
                 && s.as_str() == "length"
             {
-                // Only a valid array length (an integer in 0..=2^32-1) resizes; anything else
-                // (NaN, negative, fractional, too large) is not a length and is ignored here -
-                // script assignments get their RangeError from the VM before reaching this point
                 if let JsValue::Number(n) = value
-                    && n >= 0.0
-                    && n <= u32::MAX as f64
-                    && math::fract(n) == 0.0
+                    && let Some(new_len) = array_length_from_number(n)
+                    && array_length_is_allocatable(elements, new_len)
                 {
-                    elements.resize(n as usize, JsValue::Undefined);
+                    elements.resize(new_len, JsValue::Undefined);
                 }
                 return;
             }
@@ -2036,6 +2036,28 @@ impl Default for JsObject {
     fn default() -> Self {
         Self::new()
     }
+}
+
+/// Largest length an array can have. Arrays store their elements densely, so the ECMAScript
+/// limit of 2^32 - 1 elements would let a single length or index write demand 64 GiB; writes
+/// beyond this limit are rejected with `RangeError: Invalid array length`.
+pub const MAX_ARRAY_LENGTH: usize = (1 << 27) - 1;
+
+/// The array length a number denotes (`ToUint32(n) == n`), if it is one this engine supports.
+pub fn array_length_from_number(n: f64) -> Option<usize> {
+    if n >= 0.0 && n <= MAX_ARRAY_LENGTH as f64 && n == (n as usize) as f64 {
+        Some(n as usize)
+    } else {
+        None
+    }
+}
+
+/// Whether `elements` can grow to `new_len` (within the limit and the memory is available).
+pub fn array_length_is_allocatable(elements: &mut Vec<JsValue>, new_len: usize) -> bool {
+    new_len <= MAX_ARRAY_LENGTH
+        && elements
+            .try_reserve_exact(new_len.saturating_sub(elements.len()))
+            .is_ok()
 }
 
 /// Property key (string, index, or symbol)
